@@ -1,6 +1,6 @@
 """C18 — the scrape endpoint serves the current rendering and enforces its allowlist."""
 from facts import Sym, call_name, calls_in, find, is_call_to, is_local, lit_of, path_is, peel, strip_generics, strip_sym, sym_arg, sym_is_call, sym_str, sym_through, sym_walk, walk, is_foreign_exp
-from props.common import arg_syms, callee_method_name, crate_stats, gates, in_cycle, need, nonforeign_calls, one_method, has_panic_path
+from props.common import field_path, arg_syms, callee_method_name, crate_stats, gates, in_cycle, need, nonforeign_calls, one_method, has_panic_path
 
 KEEP = [  # private helpers the rules name (kept as functions); every other non-exported, non-trait function is spliced into its callers
     "AtomicBucketInstant::new", "HttpListeningExporter::check_tcp_allowed", "HttpListeningExporter::handle_http_request", "HttpListeningExporter::process_tcp_stream",
@@ -19,6 +19,34 @@ def is_param(s, i):
 
 def contains_node(tree, target):
     return any(n is target for n in walk(tree))
+
+
+def _place_path(x):
+    """Field names from `self` down to a place, not looking inside an Option/Result payload (`self.a.b` for
+    `(self.a.b as Some).0`); None if the place is not rooted at self."""
+    names = []
+    x = strip_sym(x)
+    for _ in range(12):
+        if not isinstance(x, tuple) or not x:
+            return None
+        if x[0] == "field":
+            inner = strip_sym(x[1])
+            if isinstance(inner, tuple) and inner and inner[0] == "downcast" and inner[2] in ("Some", "Ok", "Err"):
+                names = []  # everything collected so far lies inside the payload
+                x = strip_sym(inner[1])
+                continue
+            names.append(x[2])
+            x = inner
+        elif x[0] in ("downcast", "ref", "deref"):
+            x = strip_sym(x[1])
+        elif x[0] == "call" and x[2] and sym_is_call(x, "Deref::deref", "DerefMut::deref_mut", "Option<T>::as_mut", "Option<T>::as_ref", "Option<T>::get_or_insert", "Option<T>::get_or_insert_with", "Option<T>::insert"):
+            names = [] if not sym_is_call(x, "Deref::deref", "DerefMut::deref_mut") else names
+            x = strip_sym(x[2][0])
+        elif x[0] == "arg":
+            return tuple(reversed(names)) if x[1] == 0 and names else None
+        else:
+            return None
+    return None
 
 
 def _handler_flag(p, hh, first_name):
@@ -275,10 +303,17 @@ def run(ctx):
                 else:
                     names = [callee_method_name(c) for c in nonforeign_calls(cta)]
                     any_ok = ip_ok and "any" in names and "all" not in names
+        # the address that is tested is the peer's address itself, not something computed from it
+        from props.common import transformations
+
+        for c_ in [c for c in nonforeign_calls(cta) if callee_method_name(c) == "contains" and "ipnet" in (c.resolved or "")]:
+            tr = transformations(Sym(c_.fn).operand(c_.args[1]))
+            if tr is None or not set(tr) <= {"ip", "peer_addr"} or "ip" not in tr:
+                any_ok = False
         panics = [c for c in nonforeign_calls(cta) if callee_method_name(c) in ("unwrap", "expect", "unwrap_unchecked")]
         chk.ob("C18.a", f"{cta.path} [no allowlist -> allowed]", none_true, "without an allowlist every peer is allowed" if none_true else "check_tcp_allowed does not return true when no allowlist is configured", cta.loc())
         chk.ob("C18.a", f"{cta.path} [peer address error -> refused]", err_false and not panics, "a peer whose address cannot be obtained is refused (fail closed), without panicking" if err_false and not panics else "a failing peer_addr() is not mapped to `refuse`: the accept loop either fails open or panics (one reset connection kills the endpoint)", cta.loc())
-        chk.ob("C18.a", f"{cta.path} [membership]", any_ok, "allowed iff any listed network contains the peer's IP" if any_ok else "membership is not `any(net.contains(peer ip))`", cta.loc())
+        chk.ob("C18.a", f"{cta.path} [membership]", any_ok, "allowed iff any listed network contains the peer's IP" if any_ok else "membership is not `any(net.contains(peer ip))` on the peer's own address (a rewritten address can land inside / outside a listed network)", cta.loc())
 
     # ---------------- C18.b
     for fname in ("serve_tcp", "serve_uds"):
@@ -316,6 +351,73 @@ def run(ctx):
         pre = [c for c in nonforeign_calls(f) if c.fn is f and callee_method_name(c) in ("unwrap", "expect", "block_on")]
         ok = len(sp) == 1 and not pre
         chk.ob("C18.b", f"{f.path} [served in its own task]", ok, "the connection is served inside tokio::spawn; nothing on the accept path can panic or block" if ok else "a connection is served on the accept path (or an unwrap/expect precedes the spawn): one bad connection stalls or kills the endpoint", f.loc())
+
+    # the configured allowlist reaches the listener whatever the order of the builder calls: no other builder method
+    # overwrites the place add_allowed_address collects the networks in, and build() hands that very place to the listener
+    chk.rule("C18.d", "OWN builder allowlist: the place add_allowed_address pushes into is written by no other by-value builder method (a listener chosen afterwards does not reset it), and build() passes it to new_http_listener", floor=2)
+    aa_ = (p.method(PB, "add_allowed_address") or [None])[0]
+    apath = None
+    if aa_ is not None:
+        for c in nonforeign_calls(aa_):
+            if c.fn is aa_ and c.is_("Vec<T, A>::push"):
+                for x in sym_walk(arg_syms(c)[0]):
+                    fp = _place_path(x) if isinstance(x, tuple) and x and x[0] == "field" else None
+                    if fp and (apath is None or len(fp) > len(apath)):
+                        apath = fp
+    if apath is None:
+        chk.unrecognised("C18.d", "<anchor> add_allowed_address", "cannot see where the allowed networks are collected")
+    else:
+        writers = []
+        for f in p.fns:
+            if strip_generics(f.j.get("impl_self", "")) != PB or f.dk != "AssocFn" or f is aa_ or "::tests::" in f.path:
+                continue
+            b = f.body
+            if b.argc < 1 or "PrometheusBuilder" not in b.local_ty(1) or b.local_ty(1).lstrip().startswith("&"):
+                continue
+            from props.common import pointers_to
+
+            roots = {1} | pointers_to(b, 1)
+            for i, k, st in b.stmts():
+                if st["k"] != "assign" or st["p"]["l"] not in roots:
+                    continue
+                names = tuple(e.get("f") for e in (st["p"].get("pr") or []) if isinstance(e, dict) and "f" in e)
+                if not names and st["p"]["l"] == 1 and st["p"].get("pr"):
+                    continue
+                n = min(len(names), len(apath))
+                if names[:n] == apath[:n] and (names or st["p"]["l"] == 1):
+                    # a write that covers (part of) the allowlist's place: fine only if it puts the old content back
+                    v = repr(Sym(f).rvalue(st["rv"], 0, frozenset()))
+                    keeps = all(f"'{x}'" in v for x in apath) and "('arg', 0" in v
+                    if not keeps:
+                        writers.append((f, st.get("ln", 0)))
+        okw = not writers
+        chk.ob("C18.d", f"{PB} [allowlist place .{'.'.join(apath)}]", okw, "only add_allowed_address writes the place the allowed networks are collected in" if okw else f"{writers[0][0].name} (line {writers[0][1]}) overwrites the place the allowed networks are collected in: an allowlist configured before that call is silently dropped and every peer is served", writers[0][0].loc() if writers else (aa_.loc() if aa_ else ""))
+        bl = (p.method(PB, "build") or [None])[0]
+        if bl is not None:
+            nl = [c for c in nonforeign_calls(bl) if c.is_("http_listener::new_http_listener")]
+            okb = len(nl) == 1 and len(arg_syms(nl[0])) >= 3
+            if okb:
+                fp = None
+                for x in sym_walk(arg_syms(nl[0])[2]):
+                    q = field_path(x) if isinstance(x, tuple) and x and x[0] == "field" else None
+                    if q and q[0] == 0 and tuple(q[1]) == apath:
+                        fp = q
+                okb = fp is not None
+            where = nl[0].loc() if nl else bl.loc()
+            if not nl:
+                # new_http_listener is spliced into build(): the listener object itself is built here
+                for g in bl.region():
+                    gsy = Sym(g)
+                    for i, k, st in g.body.stmts():
+                        if st["k"] == "assign" and st["rv"]["k"] == "agg" and (st["rv"].get("adt") or "").endswith("HttpListeningExporter"):
+                            nl = [st]
+                            for op in st["rv"].get("ops") or []:
+                                for x in sym_walk(gsy.operand(op)):
+                                    q = field_path(x) if isinstance(x, tuple) and x and x[0] == "field" else None
+                                    if q and q[0] == 0 and tuple(q[1]) == apath and g is bl:
+                                        okb = True
+            if nl:
+                chk.ob("C18.d", f"{bl.path} [allowlist handed to the listener]", okb, "new_http_listener receives the collected networks" if okb else "build() does not hand the collected networks to new_http_listener", where)
 
     # ---------------- C18.c
     aa = one_method(chk, "C18.c", p, PB, "add_allowed_address")
